@@ -72,6 +72,52 @@ def arm_result(body, start, limit=30):
     return None
 
 
+def arm_results_all(body, start, limit=200):
+    """every definition of the return place reachable from `start` (not only the first): set of ('variant', name) etc."""
+    out = set()
+    seen = {start}
+    st = [start]
+    n = 0
+    while st and n < limit:
+        b = st.pop()
+        n += 1
+        r = None
+        blk = body.blocks[b]
+        for s in blk["stmts"]:
+            if s["k"] == "assign" and not s["lhs"]["p"] and s["lhs"]["l"] == 0:
+                r = arm_result(body, b, limit=1)
+                break
+        t = blk["term"]
+        if r is None and t["k"] == "call" and not t["dest"]["p"] and t["dest"]["l"] == 0:
+            r = ("call", strip_generics(mir.callee_name(t) or "?"), None)
+        if r is not None:
+            out.add(r[:2])
+            continue
+        if t["k"] in ("return", "resume", "unreachable", "abort"):
+            continue
+        for x in body.succ(b):
+            if x not in seen:
+                seen.add(x)
+                st.append(x)
+    return out
+
+
+def conditional_positive_arms(body, names_by_discr, adt=VAL):
+    """variants whose arm yields the positive outcome on some paths and a negative one on others (an extra guard inside the arm)"""
+    sws = value_switches(body, adt)
+    if not sws:
+        return []
+    b, t, place = sws[-1] if len(sws) > 1 and sws[-1][2] != sws[0][2] else sws[0]
+    out = []
+    for val, tb in t["targets"]:
+        rs = arm_results_all(body, tb)
+        pos = any((r[0] == "variant" and r[1] in ("Ok", "Some")) or (r[0] == "const" and r[1] == 1) for r in rs)
+        neg = any((r[0] == "variant" and r[1] in ("Err", "None")) or (r[0] == "const" and r[1] == 0) for r in rs)
+        if pos and neg:
+            out.append(names_by_discr.get(int(val), "?"))
+    return out
+
+
 def positive_variants(body, names_by_discr, adt=VAL):
     """variants of `adt` on which the function yields its positive outcome (true / Ok / Some): from the innermost switch on a
     discriminant of that type; returns (set of names, set of names leading to a negative outcome explicitly, has_default_positive)"""
@@ -306,7 +352,10 @@ def check(ctx, rep):
             rep.gap(key, b.where(), "no switch on the value's discriminant")
             continue
         pos, neg, dflt = r
-        if pos == {want} and not dflt:
+        cond = conditional_positive_arms(b, vnames)
+        if cond:
+            rep.bad("R-KINDS", "R-KINDS:" + key + ":unconditional", b.where(), "TryFrom<&Value> for %s succeeds for Value::%s only under a further condition inside the arm: some values of the right kind are refused" % (ty, "/".join(cond)))
+        elif pos == {want} and not dflt:
             rep.ok("R-KINDS", key, b.where(), "succeeds exactly for Value::%s" % want)
         else:
             rep.bad("R-KINDS", "R-KINDS:" + key, b.where(), "TryFrom<&Value> for %s succeeds for %s%s, expected exactly {%s}" % (ty, sorted(pos), " and by default" if dflt else "", want))
@@ -382,4 +431,26 @@ def check_make_from_dicts(ctx, rep):
         rep.ok("T-COLUMNS", "make_from_dicts:sorted-by-name", b.where(), "columns sorted ascending by name")
     else:
         rep.bad("T-COLUMNS", "T-COLUMNS:make_from_dicts:sorted-by-name", b.where(), "columns are not sorted ascending by name (sort call: %s, comparator a.name.cmp(b.name): %s)" % (bool(srt), by_name))
+    # the records become the rows as they are: the parameter is moved into Grid.rows and nothing mutates it on the way
+    n += 1
+    MUT = ("retain", "retain_mut", "remove", "swap_remove", "pop", "clear", "truncate", "drain", "dedup", "dedup_by", "dedup_by_key", "sort", "sort_by", "sort_by_key",
+           "sort_unstable", "sort_unstable_by", "reverse", "insert", "push", "split_off", "append", "extend", "resize", "swap", "iter_mut", "into_iter", "as_mut_slice")
+    touched = []
+    for bi, t in b.calls():
+        nm = strip_generics(mir.callee_name(t) or "")
+        if nm.split("::")[-1] in MUT and t["args"]:
+            r = repr(G.describe(b, t["args"][0]))
+            if re.fullmatch(r"_1\*?", r):
+                touched.append((bi, nm.split("::")[-1]))
+    moved = False
+    for bi in range(b.n):
+        for st in b.blocks[bi]["stmts"]:
+            if st["k"] == "assign" and st["rv"]["k"] == "agg" and st["rv"].get("adt", "").endswith("grid::Grid"):
+                f2 = dict(zip(st["rv"].get("fields", []), st["rv"]["ops"]))
+                if "rows" in f2 and repr(G.describe(b, f2["rows"])) == "_1":
+                    moved = True
+    if moved and not touched:
+        rep.ok("T-COLUMNS", "make_from_dicts:rows-unchanged", b.where(), "the record list is moved into Grid.rows without being modified")
+    else:
+        rep.bad("T-COLUMNS", "T-COLUMNS:make_from_dicts:rows-unchanged", b.where(touched[0][0]) if touched else b.where(), "the grid's rows are not the records as given (%s): records are dropped / reordered on the way into the grid" % (", ".join("rows.%s()" % x[1] for x in touched) or "Grid.rows is not the parameter"))
     return n
